@@ -234,9 +234,17 @@ func c16Finalise(c *fw.Ctx, i int) {
 		case 7:
 			// the input ends a few messages after the mid-GOP joiners attached, before the next key frame:
 			// they are still waiting for one when the successor arrives
-			if len(msgs) > nHdr+6 && codec[0] != "" {
-				forceJoin = nHdr + 2
-				n, cls = nHdr+4+r.Intn(2), "shortly-after-join"
+			// (after lal's 16-message codec probe, so that the joiners really are served and waiting)
+			kk := -1
+			for k, m := range msgs {
+				if k >= nHdr+17 && m.Frame >= 0 && es.Frames[m.Frame].Video && es.Frames[m.Frame].Key {
+					kk = k
+					break
+				}
+			}
+			if kk >= 0 && kk+5 <= len(msgs) {
+				forceJoin = kk + 2
+				n, cls = kk+4, "shortly-after-join"
 			} else {
 				n, cls = len(msgs), "complete"
 			}
